@@ -20,6 +20,7 @@ pub fn dispatch(cmd: &str, c: &Value) -> Value {
         "fasta_parse" => fasta_parse(c),
         "refseg_roundtrip" => refseg_roundtrip(c),
         "splitters" => splitters(c),
+        "splitter_variants" => splitter_variants(c),
         "reader_history" => reader_history(c),
         "lz_estimate" => lz_estimate(c),
         "push_priority" => push_priority(c),
@@ -569,6 +570,32 @@ pub fn details_batches(c: &Value) -> Value {
         streams.push(vals);
     }
     json!({ "batch1": {"counts": streams[0], "group": streams[1], "in_group": streams[2], "len": streams[3], "rev": streams[4]} })
+}
+
+/// C11: in-memory vs streaming vs first-sample splitter determination on the same reference (written as a FASTA file)
+fn splitter_variants(c: &Value) -> Value {
+    use ragc_core::splitters::{determine_splitters, determine_splitters_streaming, determine_splitters_streaming_first_sample};
+    let k = c["k"].as_u64().unwrap() as usize;
+    let seg = c["segment_size"].as_u64().unwrap() as usize;
+    let contigs: Vec<Vec<u8>> = c["contigs"].as_array().unwrap().iter().map(|x| bytes(x)).collect();
+    let mut text = String::new();
+    for (i, ct) in contigs.iter().enumerate() {
+        text.push_str(&format!(">c{}\n", i));
+        for &b in ct { text.push(match b { 0 => 'A', 1 => 'C', 2 => 'G', 3 => 'T', _ => 'N' }); }
+        text.push('\n');
+    }
+    let path = tmp_path("c11v").with_extension("fa");
+    std::fs::write(&path, text).unwrap();
+    let srt = |s: &ahash::AHashSet<u64>| { let mut v: Vec<u64> = s.iter().copied().collect(); v.sort(); v.iter().map(|x| json!(x)).collect::<Vec<_>>() };
+    let m = determine_splitters(&contigs, k, seg);
+    let a = determine_splitters_streaming(&path, k, seg);
+    let b = determine_splitters_streaming_first_sample(&path, k, seg);
+    let _ = std::fs::remove_file(&path);
+    let (a, b) = match (a, b) { (Ok(a), Ok(b)) => (a, b), _ => return json!({"ok": false, "why": "a streaming variant failed"}) };
+    let mem = json!([srt(&m.0), srt(&m.1), srt(&m.2)]);
+    let st = json!([srt(&a.0), srt(&a.1), srt(&a.2)]);
+    let fs = json!([srt(&b.0), srt(&b.1), srt(&b.2)]);
+    json!({ "ok": mem == st && mem == fs, "mem": mem, "streaming": st, "first": fs })
 }
 
 /// C19: sample name derived from the file name, for the plain and the gzip presentation of the same one-record file
